@@ -329,9 +329,27 @@ func (option *Option) emptyValue() reflect.Value {
 }
 
 func (option *Option) empty() {
-	if !option.isFunc() {
-		option.value.Set(option.emptyValue())
+	if option.isFunc() {
+		return
 	}
+
+	if !option.value.CanSet() {
+		// The value of an option added with AddOption is the pointer the
+		// program handed in: the variable behind it is emptied
+		if option.value.Kind() == reflect.Ptr && !option.value.IsNil() {
+			elem := option.value.Elem()
+
+			if elem.Kind() == reflect.Map {
+				elem.Set(reflect.MakeMap(elem.Type()))
+			} else {
+				elem.Set(reflect.Zero(elem.Type()))
+			}
+		}
+
+		return
+	}
+
+	option.value.Set(option.emptyValue())
 }
 
 func (option *Option) clearDefault() error {
